@@ -20,20 +20,25 @@ CONSTANTS MaxD,       \* descriptors 1..MaxD (the lowest free one is handed out,
           MaxS,       \* bound on the number of sockets ever created (model bound)
           MaxMsgs,    \* bound on messages in flight per direction (model bound)
           Mech,
+          NbSlots,    \* slots on which set_nbio / clear_nbio are offered (model bound: {} = the mode dimension is switched off)
+          Outs,       \* outcomes offered (model bound: lets a configuration leave out the injected failures)
+          RecvToggles,\* TRUE: recv is offered as the driver's  set_nbio ; recv ; clear_nbio  (op "recvt") on any descriptor;
+                      \* FALSE: plain recv, offered only when the descriptor really is non-blocking
           Obs(_, _, _, _)
 
-VARIABLES obj,      \* slot -> [ex |-> BOOLEAN, fd |-> -1 or a descriptor]
+VARIABLES obj,      \* slot -> [ex |-> BOOLEAN, fd |-> -1 or a descriptor, nb |-> the object's NBIO flag (a cache of the mode)]
           desc,     \* open descriptor -> socket
           ns,       \* sockets created so far
           lsock,    \* socket bound to the path, 0 = none
           lstn,     \* set of sockets that are listening
           pend,     \* client sockets queued on lsock, oldest first
-          conn      \* client socket -> [home, peer, toS, toC]
-vars == <<obj, desc, ns, lsock, lstn, pend, conn>>
+          conn,     \* client socket -> [home, peer, toS, toC]
+          nbm       \* sockets whose open file description really is in O_NONBLOCK mode (shared by all dup()ed descriptors)
+vars == <<obj, desc, ns, lsock, lstn, pend, conn, nbm>>
 
 Slots == {"lis", "cli", "acc", "cp"}
 SlotSeq == <<"lis", "cli", "acc", "cp">>
-NoObj == [ex |-> FALSE, fd |-> -1]
+NoObj == [ex |-> FALSE, fd |-> -1, nb |-> FALSE]
 Open == DOMAIN desc
 FreeD == {d \in 1 .. MaxD : d \notin Open}
 NewD == CHOOSE d \in FreeD : \A e \in FreeD : d <= e
@@ -51,24 +56,33 @@ SkOf(o, dsc, i) == LET fdi == o[SlotSeq[i]].fd IN
                    ELSE CHOOSE j \in 1 .. 4 :
                           /\ o[SlotSeq[j]].ex /\ o[SlotSeq[j]].fd \in DOMAIN dsc /\ dsc[o[SlotSeq[j]].fd] = dsc[fdi]
                           /\ \A k \in 1 .. (j - 1) : ~(o[SlotSeq[k]].ex /\ o[SlotSeq[k]].fd \in DOMAIN dsc /\ dsc[o[SlotSeq[k]].fd] = dsc[fdi])
-ViewO(o, dsc) == [ex   |-> [i \in 1 .. 4 |-> o[SlotSeq[i]].ex],
+\* nb = the objects' NBIO flags, rm = the real mode of the descriptor each object holds (fcntl(F_GETFL) & O_NONBLOCK)
+ViewO(o, dsc, m) ==
+                 [ex   |-> [i \in 1 .. 4 |-> o[SlotSeq[i]].ex],
+                  nb   |-> [i \in 1 .. 4 |-> o[SlotSeq[i]].nb],
+                  rm   |-> [i \in 1 .. 4 |-> o[SlotSeq[i]].ex /\ o[SlotSeq[i]].fd \in DOMAIN dsc /\ dsc[o[SlotSeq[i]].fd] \in m],
                   fd   |-> [i \in 1 .. 4 |-> o[SlotSeq[i]].ex /\ o[SlotSeq[i]].fd >= 0],
                   sk   |-> [i \in 1 .. 4 |-> SkOf(o, dsc, i)],
                   nopen |-> Cardinality(DOMAIN dsc),
                   orph |-> Cardinality((DOMAIN dsc) \ {o[x].fd : x \in {y \in Slots : o[y].ex}})]
-Ghost(o, dsc, n, ls, lt, pe, cn) ==
-    [fd |-> [i \in 1 .. 4 |-> o[SlotSeq[i]].fd], desc |-> {<<d, dsc[d]>> : d \in DOMAIN dsc}, ns |-> n, lsock |-> ls,
+Ghost(o, dsc, n, ls, lt, pe, cn, m) ==
+    [nbm |-> m, fd |-> [i \in 1 .. 4 |-> o[SlotSeq[i]].fd], desc |-> {<<d, dsc[d]>> : d \in DOMAIN dsc}, ns |-> n, lsock |-> ls,
      lstn |-> lt, pend |-> pe, conn |-> {<<c, cn[c].home, cn[c].peer, cn[c].toS, cn[c].toC>> : c \in DOMAIN cn}]
-St(o, dsc, n, ls, lt, pe, cn) == [g |-> Ghost(o, dsc, n, ls, lt, pe, cn), o |-> ViewO(o, dsc)]
-Pre == St(obj, desc, ns, lsock, lstn, pend, conn)
-Step(op, args, ret, o, dsc, n, ls, lt, pe, cn) ==
-    /\ obj' = o /\ desc' = dsc /\ ns' = n /\ lsock' = ls /\ lstn' = lt /\ pend' = pe /\ conn' = cn
-    /\ Obs(op, args, ret, St(o, dsc, n, ls, lt, pe, cn))
-SetFd(x, d) == [obj EXCEPT ![x].fd = d]
+St(o, dsc, n, ls, lt, pe, cn, m) == [g |-> Ghost(o, dsc, n, ls, lt, pe, cn, m), o |-> ViewO(o, dsc, m)]
+Pre == St(obj, desc, ns, lsock, lstn, pend, conn, nbm)
+\* a step that says what becomes of the real modes
+StepM(op, args, ret, o, dsc, n, ls, lt, pe, cn, m) ==
+    /\ obj' = o /\ desc' = dsc /\ ns' = n /\ lsock' = ls /\ lstn' = lt /\ pend' = pe /\ conn' = cn /\ nbm' = m
+    /\ Obs(op, args, ret, St(o, dsc, n, ls, lt, pe, cn, m))
+\* a step that does not touch any mode: the modes of the sockets that are still open stay (a new socket starts blocking)
+Kept(dsc) == {s \in nbm : \E d \in DOMAIN dsc : dsc[d] = s}
+Step(op, args, ret, o, dsc, n, ls, lt, pe, cn) == StepM(op, args, ret, o, dsc, n, ls, lt, pe, cn, Kept(dsc))
+\* every path on which an object forgets its descriptor also clears its I/O state flags, NBIO among them
+SetFd(x, d) == [obj EXCEPT ![x].fd = d, ![x].nb = IF d = -1 THEN FALSE ELSE @]
 
 ------------------------------------------------------------------------------------------
 OpNew(x) == /\ x \in {"lis", "cli"} /\ ~obj[x].ex
-            /\ Step("new", <<x>>, TRUE, [obj EXCEPT ![x] = [ex |-> TRUE, fd |-> -1]], desc, ns, lsock, lstn, pend, conn)
+            /\ Step("new", <<x>>, TRUE, [obj EXCEPT ![x] = [ex |-> TRUE, fd |-> -1, nb |-> FALSE]], desc, ns, lsock, lstn, pend, conn)
 
 \* something listens behind the path: a client's connect() gets through
 ListenerUp == lsock # 0 /\ lsock \in lstn /\ Alive(lsock)
@@ -111,36 +125,41 @@ OpOpenCli(out) ==
                        THEN Step("open", <<"cli", out>>, TRUE, SetFd("cli", d), WithDesc(desc, d, s), s, lsock, lstn, Append(pend, s),
                                  [c \in (DOMAIN conn) \cup {s} |-> IF c = s THEN [home |-> lsock, peer |-> 0, toS |-> 0, toC |-> 0] ELSE conn[c]])
                        ELSE Step("open", <<"cli", out>>, FALSE, SetFd("cli", d), WithDesc(desc, d, s), s, lsock, lstn, pend, conn)
-       ELSE LET s == SockOf("cli") IN
+       ELSE LET s == SockOf("cli")
+                o2 == [obj EXCEPT !["cli"].nb = FALSE] IN       \* open puts the client's descriptor into blocking mode before connect()
             /\ out # "socket"
             /\ (out = "isconn") = (s \in DOMAIN conn)
             /\ (out = "nolistener") = (out # "connect" /\ s \notin DOMAIN conn /\ ~ListenerUp)
             /\ (out = "ok") => Len(pend) < 4
             /\ IF out = "ok"
-               THEN Step("open", <<"cli", out>>, TRUE, obj, desc, ns, lsock, lstn, Append(pend, s),
-                         [c \in (DOMAIN conn) \cup {s} |-> IF c = s THEN [home |-> lsock, peer |-> 0, toS |-> 0, toC |-> 0] ELSE conn[c]])
-               ELSE Step("open", <<"cli", out>>, FALSE, obj, desc, ns, lsock, lstn, pend, conn)
+               THEN StepM("open", <<"cli", out>>, TRUE, o2, desc, ns, lsock, lstn, Append(pend, s),
+                          [c \in (DOMAIN conn) \cup {s} |-> IF c = s THEN [home |-> lsock, peer |-> 0, toS |-> 0, toC |-> 0] ELSE conn[c]],
+                          nbm \ {s})
+               ELSE StepM("open", <<"cli", out>>, FALSE, o2, desc, ns, lsock, lstn, pend, conn, nbm \ {s})
 
-\* accept: "ok" needs a queued connection (the listener is blocking); "eintr" = accept() fails with EINTR;
-\* "bad" = the listener holds no listening descriptor (closed, or its open failed): the kernel refuses
+\* accept: "ok" needs a queued connection (the listener is blocking); "eagain" = accept() answers EAGAIN once and succeeds
+\* when called again; "dupfail" = the dup() the library performs internally fails with EMFILE while accept() itself succeeds;
+\* "eintr" = accept() fails with EINTR; "bad" = the listener holds no listening descriptor: the kernel refuses.
+\* The accepted object inherits the listener's NBIO flag and its descriptor is really put into that mode.
 OpAccept(out) ==
-    /\ obj["lis"].ex /\ ~obj["acc"].ex /\ out \in {"ok", "eintr", "bad"}
-    /\ LET ls == SockOf("lis") IN
+    /\ obj["lis"].ex /\ ~obj["acc"].ex /\ out \in {"ok", "eagain", "dupfail", "eintr", "bad"}
+    /\ LET ls == SockOf("lis")  good == out \in {"ok", "eagain", "dupfail"} IN
        /\ (out = "bad") = ~(ls # 0 /\ ls \in lstn)
-       /\ (out = "ok") => (ls = lsock /\ pend # <<>>)
+       /\ good => (ls = lsock /\ pend # <<>>)
        /\ (out = "eintr") => (ls # 0 /\ ls \in lstn)
-       /\ IF out # "ok"
+       /\ IF ~good
           THEN Step("accept", <<out>>, FALSE, obj, desc, ns, lsock, lstn, pend, conn)
           ELSE /\ FreeD # {} /\ ns < MaxS
                /\ LET d == NewD  s == ns + 1  c == Head(pend)
                       d2 == CHOOSE e \in FreeD \ {d} : \A f \in FreeD \ {d} : e <= f
-                      o2 == [obj EXCEPT !["acc"] = [ex |-> TRUE, fd |-> d]]
-                      cn == [conn EXCEPT ![c].peer = s] IN
-                  IF Mech = "asbuilt"
+                      o2 == [obj EXCEPT !["acc"] = [ex |-> TRUE, fd |-> d, nb |-> obj["lis"].nb]]
+                      cn == [conn EXCEPT ![c].peer = s]
+                      m2 == IF obj["lis"].nb THEN nbm \cup {s} ELSE nbm IN
+                  IF Mech = "asbuilt" /\ out # "dupfail"
                   THEN \* AS BUILT: the new object is a dup of the listener (dup()s its descriptor), then fd is overwritten
                        /\ Cardinality(FreeD) >= 2
-                       /\ Step("accept", <<out>>, TRUE, o2, WithDesc(WithDesc(desc, d, s), d2, ls), s, lsock, lstn, Tail(pend), cn)
-                  ELSE Step("accept", <<out>>, TRUE, o2, WithDesc(desc, d, s), s, lsock, lstn, Tail(pend), cn)
+                       /\ StepM("accept", <<out>>, TRUE, o2, WithDesc(WithDesc(desc, d, s), d2, ls), s, lsock, lstn, Tail(pend), cn, m2)
+                  ELSE StepM("accept", <<out>>, TRUE, o2, WithDesc(desc, d, s), s, lsock, lstn, Tail(pend), cn, m2)
 
 \* the connection a data slot takes part in: <<client socket, TRUE iff the slot is the client side>>
 Side(x) == LET s == SockOf(x) IN
@@ -176,14 +195,19 @@ OpSend(x, out) ==
                    Step("send", <<x, out>>, FALSE, SetFd(x, -1), desc, ns, lsock, lstn, pend, conn)
               ELSE Step("send", <<x, out>>, FALSE, SetFd(x, -1), WithoutDesc(desc, obj[x].fd), ns, lsock, lstn, pend, conn)
 
-\* recv (the driver makes the descriptor non-blocking around the call): everything in flight towards x, in order
+\* recv reads until the kernel says "nothing more": plain recv is offered when the descriptor really is non-blocking (or
+\* absent); "recvt" is the driver's set_nbio ; recv ; clear_nbio, which leaves flag and descriptor in blocking mode.
+\* Either delivers everything in flight towards x, in order.
 OpRecv(x) ==
-    /\ x \in {"cli", "acc"} /\ obj[x].ex
-    /\ LET sd == Side(x) c == sd[1] IN
-       IF obj[x].fd = -1 THEN Step("recv", <<x>>, -1, obj, desc, ns, lsock, lstn, pend, conn)          \* refused: NULL
-       ELSE IF c = 0 THEN Step("recv", <<x>>, 0, obj, desc, ns, lsock, lstn, pend, conn)               \* nothing can arrive
-       ELSE IF sd[2] THEN Step("recv", <<x>>, conn[c].toC, obj, desc, ns, lsock, lstn, pend, [conn EXCEPT ![c].toC = 0])
-       ELSE Step("recv", <<x>>, conn[c].toS, obj, desc, ns, lsock, lstn, pend, [conn EXCEPT ![c].toS = 0])
+    /\ x \in {"cli", "acc"} /\ obj[x].ex /\ (RecvToggles \/ obj[x].fd = -1 \/ SockOf(x) \in nbm)
+    /\ LET sd == Side(x) c == sd[1]
+           op == IF RecvToggles THEN "recvt" ELSE "recv"
+           o2 == IF RecvToggles /\ obj[x].fd >= 0 THEN [obj EXCEPT ![x].nb = FALSE] ELSE obj
+           m2 == IF RecvToggles THEN nbm \ {SockOf(x)} ELSE nbm IN
+       IF obj[x].fd = -1 THEN StepM(op, <<x>>, -1, o2, desc, ns, lsock, lstn, pend, conn, m2)          \* refused: NULL
+       ELSE IF c = 0 THEN StepM(op, <<x>>, 0, o2, desc, ns, lsock, lstn, pend, conn, m2)               \* nothing can arrive
+       ELSE IF sd[2] THEN StepM(op, <<x>>, conn[c].toC, o2, desc, ns, lsock, lstn, pend, [conn EXCEPT ![c].toC = 0], m2)
+       ELSE StepM(op, <<x>>, conn[c].toS, o2, desc, ns, lsock, lstn, pend, [conn EXCEPT ![c].toS = 0], m2)
 
 \* close: "ok"; "eintr" = the first close() fails with EINTR leaving the descriptor open, the retry succeeds
 OpClose(x, out) ==
@@ -192,26 +216,42 @@ OpClose(x, out) ==
        THEN out = "ok" /\ Step("close", <<x, out>>, FALSE, obj, desc, ns, lsock, lstn, pend, conn)
        ELSE Step("close", <<x, out>>, TRUE, SetFd(x, -1), WithoutDesc(desc, obj[x].fd), ns, lsock, lstn, pend, conn)
 
-OpDup(x) ==
-    /\ x \in {"lis", "cli", "acc"} /\ obj[x].ex /\ ~obj["cp"].ex
-    /\ IF obj[x].fd = -1
-       THEN Step("dup", <<x>>, TRUE, [obj EXCEPT !["cp"] = [ex |-> TRUE, fd |-> -1]], desc, ns, lsock, lstn, pend, conn)
+\* dup: the copy carries the original's flags and a dup()ed descriptor (same open file description: same real mode);
+\* "fail" = dup() fails with EMFILE: the copy holds no descriptor (its flags are copied all the same)
+OpDup(x, out) ==
+    /\ x \in {"lis", "cli", "acc"} /\ obj[x].ex /\ ~obj["cp"].ex /\ out \in {"ok", "fail"}
+    /\ IF obj[x].fd = -1 \/ out = "fail"
+       THEN /\ (out = "fail") => obj[x].fd >= 0
+            /\ Step("dup", <<x, out>>, TRUE, [obj EXCEPT !["cp"] = [ex |-> TRUE, fd |-> -1, nb |-> obj[x].nb]], desc, ns, lsock, lstn, pend, conn)
        ELSE /\ FreeD # {}
-            /\ Step("dup", <<x>>, TRUE, [obj EXCEPT !["cp"] = [ex |-> TRUE, fd |-> NewD]],
+            /\ Step("dup", <<x, out>>, TRUE, [obj EXCEPT !["cp"] = [ex |-> TRUE, fd |-> NewD, nb |-> obj[x].nb]],
                     WithDesc(desc, NewD, desc[obj[x].fd]), ns, lsock, lstn, pend, conn)
+
+\* set_nbio / clear_nbio: refused without a descriptor; otherwise the descriptor REALLY changes mode (whatever the flag
+\* said before: the flag is only a cache and other copies of the descriptor may have changed the shared mode) and the flag follows
+OpSetNbio(x) ==
+    /\ obj[x].ex
+    /\ IF obj[x].fd = -1 THEN Step("set_nbio", <<x>>, FALSE, obj, desc, ns, lsock, lstn, pend, conn)
+       ELSE StepM("set_nbio", <<x>>, TRUE, [obj EXCEPT ![x].nb = TRUE], desc, ns, lsock, lstn, pend, conn, nbm \cup {SockOf(x)})
+OpClearNbio(x) ==
+    /\ obj[x].ex
+    /\ IF obj[x].fd = -1 THEN Step("clear_nbio", <<x>>, FALSE, obj, desc, ns, lsock, lstn, pend, conn)
+       ELSE StepM("clear_nbio", <<x>>, TRUE, [obj EXCEPT ![x].nb = FALSE], desc, ns, lsock, lstn, pend, conn, nbm \ {SockOf(x)})
 
 OpDel(x) ==
     /\ obj[x].ex
     /\ Step("del", <<x>>, TRUE, [obj EXCEPT ![x] = NoObj],
             IF obj[x].fd >= 0 /\ obj[x].fd \in Open THEN WithoutDesc(desc, obj[x].fd) ELSE desc, ns, lsock, lstn, pend, conn)
 
-Init == /\ obj = [x \in Slots |-> NoObj] /\ desc = <<>> /\ ns = 0 /\ lsock = 0 /\ lstn = {} /\ pend = <<>> /\ conn = <<>>
-Next == \/ \E x \in Slots : OpNew(x) \/ OpRecv(x) \/ OpDup(x) \/ OpDel(x)
-        \/ \E out \in {"ok", "socket", "bind", "listen", "unbound"} : OpOpenLis(out)
-        \/ \E out \in {"ok", "socket", "connect", "nolistener", "isconn"} : OpOpenCli(out)
-        \/ \E out \in {"ok", "eintr", "bad"} : OpAccept(out)
-        \/ \E x \in Slots, out \in {"ok", "epipe", "reset", "badfd", "notconn", "peerdead"} : OpSend(x, out)
-        \/ \E x \in Slots, out \in {"ok", "eintr"} : OpClose(x, out)
+Init == /\ obj = [x \in Slots |-> NoObj] /\ desc = <<>> /\ ns = 0 /\ lsock = 0 /\ lstn = {} /\ pend = <<>> /\ conn = <<>> /\ nbm = {}
+Next == \/ \E x \in Slots : OpNew(x) \/ OpRecv(x) \/ OpDel(x)
+        \/ \E x \in NbSlots : OpSetNbio(x) \/ OpClearNbio(x)
+        \/ \E x \in Slots, out \in {"ok", "fail"} \cap Outs : OpDup(x, out)
+        \/ \E out \in {"ok", "socket", "bind", "listen", "unbound"} \cap Outs : OpOpenLis(out)
+        \/ \E out \in {"ok", "socket", "connect", "nolistener", "isconn"} \cap Outs : OpOpenCli(out)
+        \/ \E out \in {"ok", "eagain", "dupfail", "eintr", "bad"} \cap Outs : OpAccept(out)
+        \/ \E x \in Slots, out \in {"ok", "epipe", "reset", "badfd", "notconn", "peerdead"} \cap Outs : OpSend(x, out)
+        \/ \E x \in Slots, out \in {"ok", "eintr"} \cap Outs : OpClose(x, out)
 Spec == Init /\ [][Next]_vars
 
 ------------------------------------------------------------------------------------------
@@ -220,5 +260,7 @@ FdFieldValidOrMinus1 == \A x \in Slots : obj[x].ex => (obj[x].fd = -1 \/ obj[x].
 OneOwnerPerDescriptor == \A x, y \in Slots : (x # y /\ obj[x].ex /\ obj[y].ex /\ obj[x].fd >= 0) => obj[x].fd # obj[y].fd
 \* every descriptor the library has open belongs to an object (so deleting the objects closes them all)
 NoOrphanDescriptor == Open \subseteq Owned
+\* only open sockets have a mode; an object without a descriptor that is not a failed copy claims nothing
+ModesOfOpenSocketsOnly == \A s \in nbm : Alive(s)
 AllDeletedMeansAllClosed == (\A x \in Slots : ~obj[x].ex) => Open = {}
 ================================================================================
